@@ -5,4 +5,5 @@ func extractAll() {
 	extractCacheKey()
 	extractOpTable()
 	extractC14Facts()
+	extractTargets()
 }
